@@ -19,7 +19,7 @@ from pyvc.api import *
 from contracts import c03 as _c03
 
 for _p in list(PROOFS):
-    if _p.prop == 'C03' and (_p.name.startswith('create[') or _p.name.startswith('chooser[') or _p.name == 'real-ledger.concurrent'):
+    if _p.prop == 'C03' and (_p.name.startswith('create[') or _p.name.startswith('chooser') or _p.name == 'real-ledger.concurrent'):
         proof("C14", _p.name)(type('C14_' + _p.cls.__name__, (_p.cls,), {}))
 
 TRUSTED = list(_c03.TRUSTED) + [
